@@ -113,11 +113,38 @@ struct CostEngine : EngineBase {
         delete e;
       }
     }
+    hetero_costs(cs, n, bound);
     window([&] { s->~Set(); });
     MonScope m;
     free(s);
     if (!g_cut) end_history_ok();
   }
+
+  // heterogeneous keys under a transparent comparator: an int key, and keys equivalent to runs of 2, 16 and 256 consecutive elements
+  // (the bound of the property does not depend on how many elements a key is equivalent to)
+  template <class C = Cmp>
+  typename std::enable_if<CmpTransparent<C>::value>::type hetero_costs(const Set &cs, size_t n, uint64_t bound) {
+    static const int shifts[] = {3, 6, 10};  // keys are 4, 8, 12, ..: runs of 2, 16, 256 elements
+    for (size_t r = 0; r <= n && !g_cut; r += (n <= 64 ? 1 : n / 50 + 1)) {
+      int key = static_cast<int>(4 * (r + 1));
+      uint64_t c;
+      c = cost([&] { (void)cs.find(key); }); judge("find(int key)", c, bound, n, key);
+      c = cost([&] { (void)cs.count(key); }); judge("count(int key)", c, bound, n, key);
+      c = cost([&] { (void)cs.contains(key); }); judge("contains(int key)", c, bound, n, key);
+      c = cost([&] { (void)cs.lower_bound(key); }); judge("lower_bound(int key)", c, bound, n, key);
+      c = cost([&] { (void)cs.upper_bound(key); }); judge("upper_bound(int key)", c, bound, n, key);
+      for (int sh : shifts) {
+        HalfKey hk(key >> sh, sh);
+        c = cost([&] { (void)cs.find(hk); }); judge("find(run key)", c, bound, n, key);
+        c = cost([&] { (void)cs.count(hk); }); judge("count(run key)", c, bound, n, key);
+        c = cost([&] { (void)cs.contains(hk); }); judge("contains(run key)", c, bound, n, key);
+        c = cost([&] { (void)cs.lower_bound(hk); }); judge("lower_bound(run key)", c, bound, n, key);
+        c = cost([&] { (void)cs.upper_bound(hk); }); judge("upper_bound(run key)", c, bound, n, key);
+      }
+    }
+  }
+  template <class C = Cmp>
+  typename std::enable_if<!CmpTransparent<C>::value>::type hetero_costs(const Set &, size_t, uint64_t) {}
 
   template <uintmax_t N>
   void run_small() {
